@@ -164,9 +164,30 @@ var feeTable = []*big.Int{
 	pow2(256, -100000), pow2(256, -1), // these two are outside wf (fee + allowance overflows 256 bits)
 }
 
+// sparse: every variable-length field of the calldata is empty, every amount zero, with probability 1/2 each
+// (the places where a handler could be tempted to "fill in" something from an input it is not supposed to use)
+func lenS(r *vgen.Rng, sparse bool, n int) int {
+	if sparse && r.Bool() {
+		return 0
+	}
+	return n
+}
+
+func amountS(r *vgen.Rng, sparse bool) *big.Int {
+	if sparse && r.Bool() {
+		return big.NewInt(0)
+	}
+	return amount(r)
+}
+
 func erc20Data(r *vgen.Rng) (cd, hr []byte) {
-	rec := r.Bytes(recLen(r))
-	cd = cat(pad32(amount(r)), pad32(big.NewInt(int64(len(rec)))), rec)
+	cd, hr, _ = erc20DataS(r, false)
+	return
+}
+
+func erc20DataS(r *vgen.Rng, sparse bool) (cd, hr []byte, hrNil bool) {
+	rec := r.Bytes(lenS(r, sparse, recLen(r)))
+	cd = cat(pad32(amountS(r, sparse)), pad32(big.NewInt(int64(len(rec)))), rec)
 	switch r.Intn(4) {
 	case 0: // optional message
 		var fee *big.Int
@@ -177,59 +198,97 @@ func erc20Data(r *vgen.Rng) (cd, hr []byte) {
 		}
 		cd = cat(cd, pad32(fee), r.Bytes(vgen.Pick(r, []int{1, 32, 33, 1 + r.Intn(200)})))
 	}
-	switch r.Intn(5) {
+	// handler response: absent (nil) / empty / 32 bytes zero / 32 bytes / 33+ bytes; 1..31 bytes are outside the
+	// wire format of this handler (malformed stream)
+	switch r.Intn(10) {
 	case 0:
-		hr = pad32(amount(r))
+		hr = []byte{}
 	case 1:
+		hr = make([]byte, 32)
+	case 2, 3:
+		hr = pad32(amount(r))
+	case 4:
 		hr = cat(pad32(amount(r)), r.Bytes(1+r.Intn(40)))
+	case 5:
+		hr = cat(pad32(amount(r)), pad32(amount(r)))
+	default:
+		hrNil = true
 	}
 	return
 }
 
-func erc721Data(r *vgen.Rng) []byte {
-	rec := r.Bytes(recLen(r))
-	meta := r.Bytes(vgen.Pick(r, []int{0, 0, 1, 31, 32, 33, 70, r.Intn(300)}))
-	return cat(pad32(amount(r)), pad32(big.NewInt(int64(len(rec)))), rec, pad32(big.NewInt(int64(len(meta)))), meta)
+// hrAny: a handler response for a handler that is not supposed to look at it: absent (nil), empty, 1..31 bytes,
+// 32 bytes zero / an amount / random, 33+ bytes, an ABI-encoded string (what a token handler answers)
+func hrAny(r *vgen.Rng) (hr []byte, isNil bool) {
+	switch r.Intn(9) {
+	case 0:
+		return nil, true
+	case 1:
+		return []byte{}, false
+	case 2:
+		return r.Bytes(1 + r.Intn(31)), false
+	case 3:
+		return make([]byte, 32), false
+	case 4:
+		return pad32(amount(r)), false
+	case 5:
+		return r.Bytes(32), false
+	case 6:
+		return cat(pad32(amount(r)), r.Bytes(1+r.Intn(40))), false
+	case 7:
+		return cat(pad32(amount(r)), pad32(amount(r)), r.Bytes(vgen.Pick(r, []int{0, 20, 32, 64}))), false
+	}
+	str := r.Bytes(vgen.Pick(r, []int{0, 1, 31, 32, 33, 60}))
+	return cat(pad32(big.NewInt(32)), pad32(big.NewInt(int64(len(str)))), str, make([]byte, (32-len(str)%32)%32)), false
 }
 
-func genericData(r *vgen.Rng) []byte {
-	fs := r.Bytes(vgen.Pick(r, []int{4, 4, 0, 1, 5, 255, 256, 300}))
-	ca := r.Bytes(vgen.Pick(r, []int{20, 20, 0, 1, 32, 255}))
-	dp := r.Bytes(vgen.Pick(r, []int{20, 20, 0, 1, 32, 255}))
-	ex := r.Bytes(vgen.Pick(r, []int{0, 1, 32, 36, 68, r.Intn(300)}))
-	return cat(pad32(amount(r)), []byte{byte(len(fs) >> 8), byte(len(fs))}, fs, []byte{byte(len(ca))}, ca, []byte{byte(len(dp))}, dp, ex)
+func erc721Data(r *vgen.Rng, sparse bool) []byte {
+	rec := r.Bytes(lenS(r, sparse, recLen(r)))
+	meta := r.Bytes(lenS(r, sparse, vgen.Pick(r, []int{0, 0, 1, 31, 32, 33, 70, r.Intn(300)})))
+	return cat(pad32(amountS(r, sparse)), pad32(big.NewInt(int64(len(rec)))), rec, pad32(big.NewInt(int64(len(meta)))), meta)
 }
 
-func erc1155Data(r *vgen.Rng) []byte {
+func genericData(r *vgen.Rng, sparse bool) []byte {
+	fs := r.Bytes(lenS(r, sparse, vgen.Pick(r, []int{4, 4, 0, 1, 5, 255, 256, 300})))
+	ca := r.Bytes(lenS(r, sparse, vgen.Pick(r, []int{20, 20, 0, 1, 32, 255})))
+	dp := r.Bytes(lenS(r, sparse, vgen.Pick(r, []int{20, 20, 0, 1, 32, 255})))
+	ex := r.Bytes(lenS(r, sparse, vgen.Pick(r, []int{0, 1, 32, 36, 68, r.Intn(300)})))
+	if n := 76 - (32 + 2 + len(fs) + 1 + len(ca) + 1 + len(dp) + len(ex)); n > 0 {
+		ex = append(ex, r.Bytes(n)...) // the handler refuses calldata of less than 76 bytes
+	}
+	return cat(pad32(amountS(r, sparse)), []byte{byte(len(fs) >> 8), byte(len(fs))}, fs, []byte{byte(len(ca))}, ca, []byte{byte(len(dp))}, dp, ex)
+}
+
+func erc1155Data(r *vgen.Rng, sparse bool) []byte {
 	t, err := depositHandlers.GetErc1155Type()
 	if err != nil {
 		panic(err)
 	}
-	n1, n2 := r.Intn(7), r.Intn(7)
+	n1, n2 := lenS(r, sparse, r.Intn(7)), r.Intn(7)
 	if r.Chance(2, 3) {
 		n2 = n1
 	}
 	ids, ams := make([]*big.Int, n1), make([]*big.Int, n2)
 	for i := range ids {
-		ids[i] = amount(r)
+		ids[i] = amountS(r, sparse)
 	}
 	for i := range ams {
-		ams[i] = amount(r)
+		ams[i] = amountS(r, sparse)
 	}
 	rl := 20
 	if r.Chance(1, 8) {
 		rl = vgen.Pick(r, []int{0, 19, 21, 32}) // not 20 bytes: the destination handler refuses (outside wf)
 	}
-	b, err := t.Pack(ids, ams, r.Bytes(rl), r.Bytes(vgen.Pick(r, []int{0, 1, 31, 32, 33, 64, r.Intn(200)})))
+	b, err := t.Pack(ids, ams, r.Bytes(rl), r.Bytes(lenS(r, sparse, vgen.Pick(r, []int{0, 1, 31, 32, 33, 64, r.Intn(200)}))))
 	if err != nil {
 		panic(err)
 	}
 	return b
 }
 
-func subData(r *vgen.Rng) []byte {
+func subData(r *vgen.Rng, sparse bool) []byte {
 	rec := r.Bytes(recLen(r))
-	return cat(pad32(amount(r)), pad32(big.NewInt(int64(len(rec)))), rec)
+	return cat(pad32(amountS(r, sparse)), pad32(big.NewInt(int64(len(rec)))), rec)
 }
 
 func btcPayload(r *vgen.Rng) (data []byte, sat string) {
@@ -263,25 +322,54 @@ func envelope(r *vgen.Rng, c *Case) {
 	c.Rid = hex.EncodeToString(r.Bytes(32))
 }
 
+var msgIDs = []string{"", "msg-id", "retry", "0", "1-2-100", "2-1-12345-0x3f0c2f1e9a4b5d6c7e8f90a1b2c3d4e5f60718293a4b5c6d7e8f9a0b1c2d3e4f", "255_1", "0x00", "\x00\xff", "fungible"}
+
+// ignored: the inputs of HandleDeposit that no handler is supposed to look at for any kind of deposit
+func ignored(r *vgen.Rng, c *Case) {
+	if r.Chance(1, 4) {
+		return // the fixed values
+	}
+	id := vgen.Pick(r, msgIDs)
+	if r.Chance(1, 4) {
+		id = fmt.Sprintf("%d-%d-%d-%x", c.SrcDom, c.DstDom, r.Intn(1000000), r.Bytes(32))
+	} else if r.Chance(1, 10) {
+		id = hex.EncodeToString(r.Bytes(150))
+	}
+	c.MsgID = &id
+	ts := vgen.Pick(r, []int64{0, 1, -1, 1700000000, 1 << 31, 1 << 40, -62135596800, 253402300800, int64(r.Intn(2000000000))})
+	c.TS = &ts
+	c.Sender = hex.EncodeToString(vgen.Pick(r, [][]byte{make([]byte, 20), r.Bytes(20), bytes.Repeat([]byte{0xff}, 20)}))
+	if c.Src == "btc" {
+		c.BtcBlock = vgen.Pick(r, []string{"0", "1", "100", "850000", "18446744073709551616", "-5", strconv.Itoa(r.Intn(1000000))})
+	}
+}
+
 func fresh(r *vgen.Rng, src, dst string) Case {
 	c := Case{Src: src, Dst: dst}
 	envelope(r, &c)
+	sparse := r.Chance(1, 3)
+	hr, hrNil := hrAny(r)
 	switch src {
 	case "erc20":
-		cd, hr := erc20Data(r)
-		c.Data, c.HR = hex.EncodeToString(cd), hex.EncodeToString(hr)
+		var cd []byte
+		cd, hr, hrNil = erc20DataS(r, sparse)
+		c.Data = hex.EncodeToString(cd)
 	case "erc721":
-		c.Data = hex.EncodeToString(erc721Data(r))
+		c.Data = hex.EncodeToString(erc721Data(r, sparse))
 	case "erc1155":
-		c.Data = hex.EncodeToString(erc1155Data(r))
+		c.Data = hex.EncodeToString(erc1155Data(r, sparse))
 	case "generic":
-		c.Data = hex.EncodeToString(genericData(r))
+		c.Data = hex.EncodeToString(genericData(r, sparse))
 	case "sub":
-		c.Data = hex.EncodeToString(subData(r))
+		c.Data = hex.EncodeToString(subData(r, sparse))
+		hr, hrNil = nil, false // the substrate and btc handlers have no such input
 	case "btc":
 		d, a := btcPayload(r)
 		c.Data, c.Amount = hex.EncodeToString(d), a
+		hr, hrNil = nil, false
 	}
+	c.HR, c.HRNil = hex.EncodeToString(hr), hrNil
+	ignored(r, &c)
 	return c
 }
 
